@@ -16,7 +16,7 @@ func TestSmoke(t *testing.T) {
 	fmt.Println("new:", time.Since(t0))
 	f := c.Fork(1, GenesisTime.Add(6*time.Second))
 	before := f.Snapshot()
-	r := f.Exec(storagetypes.NewMsgBuyStorage(Acc(0).Bech, Acc(0).Bech, 30, 3_000_000_000_000, Denom))
+	r := f.Exec(&storagetypes.MsgBuyStorage{Creator: Acc(0).Bech, ForAddress: Acc(0).Bech, DurationDays: 30, Bytes: 3_000_000_000_000, PaymentDenom: Denom})
 	fmt.Println(r.String())
 	for _, d := range before.Diff(f.Snapshot()) {
 		fmt.Println(d.Addr, d.Denom, d.Diff)
@@ -27,7 +27,7 @@ func TestSmoke(t *testing.T) {
 	t1 := time.Now()
 	for i := 0; i < 1000; i++ {
 		g := c.Fork(1, GenesisTime)
-		g.Exec(storagetypes.NewMsgBuyStorage(Acc(0).Bech, Acc(0).Bech, 30, 3_000_000_000_000, Denom))
+		g.Exec(&storagetypes.MsgBuyStorage{Creator: Acc(0).Bech, ForAddress: Acc(0).Bech, DurationDays: 30, Bytes: 3_000_000_000_000, PaymentDenom: Denom})
 	}
 	fmt.Println("1000 forks+buy:", time.Since(t1))
 }
